@@ -109,8 +109,16 @@ impl Texture {
 
         let mut dst: Vec<u8>;
 
+        // a damaged header must not make us index past the data, or allocate far more than the file holds
+        let pixel_count =
+            header.width as usize * header.height as usize * header.depth as usize;
+
         match header.format {
             TextureFormat::B4G4R4A4 => {
+                if src.len() < pixel_count * 2 {
+                    return None;
+                }
+
                 dst =
                     vec![
                         0u8;
@@ -120,7 +128,7 @@ impl Texture {
                 let mut offset = 0;
                 let mut dst_offset = 0;
 
-                for _ in 0..header.width as usize * header.height as usize {
+                for _ in 0..pixel_count {
                     let short: u16 = ((src[offset] as u16) << 8) | src[offset + 1] as u16;
 
                     let src_b = short & 0xF;
@@ -138,6 +146,10 @@ impl Texture {
                 }
             }
             TextureFormat::B8G8R8A8 => {
+                if src.len() < pixel_count * 4 {
+                    return None;
+                }
+
                 dst =
                     vec![
                         0u8;
@@ -166,7 +178,7 @@ impl Texture {
                     header.width as usize,
                     header.height as usize * header.depth as usize,
                     decode_bc1,
-                );
+                )?;
             }
             TextureFormat::BC3 => {
                 dst = Texture::decode(
@@ -174,7 +186,7 @@ impl Texture {
                     header.width as usize,
                     header.height as usize * header.depth as usize,
                     decode_bc3,
-                );
+                )?;
             }
             TextureFormat::BC5 => {
                 dst = Texture::decode(
@@ -182,7 +194,7 @@ impl Texture {
                     header.width as usize,
                     header.height as usize * header.depth as usize,
                     decode_bc5,
-                );
+                )?;
             }
         }
 
@@ -199,17 +211,29 @@ impl Texture {
         })
     }
 
-    fn decode(src: &[u8], width: usize, height: usize, decode_func: DecodeFunction) -> Vec<u8> {
-        let mut image: Vec<u32> = vec![0; width * height];
-        decode_func(src, width, height, &mut image).unwrap();
+    fn decode(
+        src: &[u8],
+        width: usize,
+        height: usize,
+        decode_func: DecodeFunction,
+    ) -> Option<Vec<u8>> {
+        // every block format stores at least half a byte per pixel, so there can't be enough data for more pixels than this
+        if width * height > src.len() * 2 + 15 {
+            return None;
+        }
 
-        image
-            .iter()
-            .flat_map(|x| {
-                let v = x.to_le_bytes();
-                [v[2], v[1], v[0], v[3]]
-            })
-            .collect::<Vec<u8>>()
+        let mut image: Vec<u32> = vec![0; width * height];
+        decode_func(src, width, height, &mut image).ok()?;
+
+        Some(
+            image
+                .iter()
+                .flat_map(|x| {
+                    let v = x.to_le_bytes();
+                    [v[2], v[1], v[0], v[3]]
+                })
+                .collect::<Vec<u8>>(),
+        )
     }
 }
 
